@@ -616,6 +616,95 @@ async fn run(cli: &Cli, report: &mut Report) {
     report.set("worst_scheduler_lateness_ms", json!(late.worst().as_millis() as u64));
 }
 
+
+/// Connections that were accepted before the shutdown request but had not finished their PROXY
+/// header yet are "already in progress" too. Causality comes from hook H3 (the listener's count of
+/// accepted connections): the cancel is only issued once every client of the schedule has been
+/// taken from the accept queue; afterwards the clients finish their header and cooperate.
+async fn proxy_pending_family(cli: &Cli, report: &mut Report) {
+    use crate::tcp::{proxy_v1, proxy_v2};
+    use std::sync::atomic::Ordering;
+    let n = cli.scaled(if cli.tier == Tier::Thorough { 60 } else { 6 });
+    let mut handles = vec![];
+    for i in 0..n {
+        let seed = cli.seed;
+        handles.push(tokio::spawn(async move {
+            let mut rng = Rng::stream(seed, 0xC17A + i);
+            let k = rng.range(1, 5) as usize;
+            let direct = start_direct(DirectSpec { timeout: Duration::from_secs(4), proxy: Some((true, true)), discovery_latency: Duration::from_millis(300), ..Default::default() }).await;
+            // the readiness probe of start_direct is itself one accepted connection: wait until the
+            // listener has counted it, otherwise the count below would be reached one client early
+            let t_probe = Instant::now();
+            while direct.accepted.load(Ordering::SeqCst) < 1 && t_probe.elapsed() < Duration::from_secs(3) {
+                tokio::time::sleep(Duration::from_millis(2)).await;
+            }
+            tokio::time::sleep(Duration::from_millis(20)).await;
+            let base = direct.accepted.load(Ordering::SeqCst);
+            let mut ends = vec![];
+            let mut rests = vec![];
+            for c in 0..k {
+                let Ok(end) = TcpEnd::connect(direct.addr, None).await else { return (i, k, vec![], None, Some("connect failed".to_string())) };
+                let src: SocketAddr = format!("198.51.100.{}:{}", 10 + c, 40000 + c).parse().expect("addr");
+                let header = if rng.bool() { proxy_v1(src, direct.addr) } else { proxy_v2(src, direct.addr) };
+                // nothing, one byte, or half of the header before the shutdown request
+                let cut = match rng.below(3) { 0 => 0, 1 => 1, _ => header.len() / 2 };
+                end.send(&header[..cut]);
+                rests.push(header[cut..].to_vec());
+                ends.push(end);
+            }
+            // wait until the listener has taken all of them from the accept queue
+            let t0 = Instant::now();
+            while direct.accepted.load(Ordering::SeqCst) < base + k {
+                if t0.elapsed() > Duration::from_secs(5) {
+                    return (i, k, vec![], None, Some("the listener did not accept the connections within 5 s".to_string()));
+                }
+                tokio::time::sleep(Duration::from_millis(2)).await;
+            }
+            direct.stop.cancel();
+            let cancelled = Instant::now();
+            tokio::time::sleep(Duration::from_millis(rng.below(150))).await;
+            let mut futs = vec![];
+            for (c, (end, rest)) in ends.iter().zip(rests.iter()).enumerate() {
+                end.send(rest);
+                let claimed = Ident { name: format!("Pending{c}"), uuid: 7000 + c as u128 };
+                let plan = scripts::plan(scripts::login_script(2, "drain.example.org", 25565, &claimed, "en_us"), false, [c as u8 + 1; 16], Duration::from_secs(8));
+                futs.push(Client::new(end, plan).run());
+            }
+            let logs = futures_util::future::join_all(futs).await;
+            let transfers: Vec<bool> = logs.iter().map(|l| l.count("Transfer") > 0).collect();
+            let returned = direct.wait_returned(Duration::from_secs(4) + RETURN_SLACK).await.map(|t| t.duration_since(cancelled));
+            for e in &ends {
+                e.kill();
+            }
+            (i, k, transfers, returned, None)
+        }));
+    }
+    for h in handles {
+        let Ok((i, k, transfers, returned, problem)) = h.await else {
+            report.inconclusive("a PROXY-pending schedule task failed");
+            continue;
+        };
+        if let Some(p) = problem {
+            report.inconclusive(&format!("PROXY-pending schedule {i}: {p}"));
+            continue;
+        }
+        report.eval(Some(&format!("proxy-header-pending/{k}-clients/{i}")));
+        report.count("connections accepted before the shutdown request with their PROXY header still pending", k as u64);
+        report.count("of those: Transfers received after the shutdown request", transfers.iter().filter(|t| **t).count() as u64);
+        let detail = json!({"schedule": i, "clients": k, "transfer_received": transfers, "listen_returned_ms_after_cancel": returned.map(|d| d.as_millis() as u64)});
+        if i % 3 == 0 {
+            report.sample(json!({"case": "proxy-header-pending", "observed": detail}));
+        }
+        let lost = transfers.iter().filter(|t| !**t).count();
+        if lost > 0 {
+            report.violation("b-inflight-client-lost-transfer/proxy-header-pending", &format!("{lost} of {k} connections that the listener had accepted before the shutdown request (PROXY header still pending) did not receive their Transfer"), detail.clone());
+        }
+        if returned.is_none() {
+            report.violation("d-listen-not-returned-within-timeout+5s/proxy-header-pending", "listen() did not return within timeout + 5 s of the shutdown request", detail);
+        }
+    }
+}
+
 pub async fn run_prop(cli: &Cli) -> i32 {
     let mut report = Report::new(
         cli,
@@ -628,5 +717,8 @@ pub async fn run_prop(cli: &Cli) -> i32 {
     report.assume("adapter-log instants are lower bounds (the log's clock started after the base instant taken just before the listener was created)");
     report.assume("the ctrl-c wiring of the passage binary (src/lib.rs) is not exercised: no binary target is available to this crate; the stop token is cancelled directly");
     run(cli, &mut report).await;
+    if cli.replay.is_none() {
+        proxy_pending_family(cli, &mut report).await;
+    }
     report.finish()
 }
